@@ -1515,6 +1515,262 @@ def directed(ctx, max_mem_src, alias_live=None):
                      {"kind": "history", "ops": [op_to_json(o) for o in ops]})
 
 
+
+# ----------------------------------------------------------------------------------------------------------
+# instruction level: the copy instructions of the real SEVM against the flat arrays
+#   program = [MSTORE / MSTORE8 of known values] ; <copy instruction with pushed operands> ; PUSH m ; MLOAD ; STOP
+#   on a (possibly dirty, partly symbolic) memory; sources: calldata, code, another account's code (existing / empty),
+#   return data (injected sub-call output, or produced by STATICCALL to the identity precompile), memory itself.
+
+INSN_OPS = {"CALLDATACOPY": 0x37, "CODECOPY": 0x39, "EXTCODECOPY": 0x3C, "RETURNDATACOPY": 0x3E, "MCOPY": 0x5E}
+EXT_ADDR = 0xABCDEF
+EMPTY_ADDR = 0x777777
+
+
+def _p2(n):
+    return bytes([0x61]) + int(n).to_bytes(2, "big")
+
+
+def insn_source(kind):
+    """(list of python values for ByteVec(...), tokens) of a source byte sequence"""
+    if kind == "concrete":
+        data = bytes(range(1, 38))  # 37 bytes
+        return [data], list(data)
+    pieces = [bytes([0xC1, 0xC2, 0xC3, 0xC4, 0xC5]), var("s8", 8), bytes(range(0xD0, 0xD7)), var("t32", 32), bytes([0xE1, 0xE2, 0xE3])]
+    toks = [0xC1, 0xC2, 0xC3, 0xC4, 0xC5] + [("s8", i) for i in range(8)] + list(range(0xD0, 0xD7)) + [("t32", i) for i in range(32)] + [0xE1, 0xE2, 0xE3]
+    return pieces, toks
+
+
+def insn_dirty(kind):
+    if not kind:
+        return [], []
+    pieces = [b"\xee" * 20, var("m12", 12), b"\xdd" * 45]
+    return pieces, [0xEE] * 20 + [("m12", i) for i in range(12)] + [0xDD] * 45
+
+
+_INSN_SEVM = None
+
+
+def insn_run(case):
+    """run one case on the real SEVM; returns dict(error, mem_tokens, mem_len, public_tokens, top_tokens) and the flat expectation"""
+    global _INSN_SEVM
+    from vlib import sevmdrv
+    from halmos.sevm import CallContext, CallOutput
+    from halmos.utils import EVM, con_addr
+
+    if _INSN_SEVM is None:
+        _INSN_SEVM = sevmdrv.mk_sevm()
+    sevm, args = _INSN_SEVM
+    op = case["op"]
+    dst, off, size = case["dst"], case["off"], case["size"]
+    src_pieces, src_toks = insn_source(case.get("src", "concrete"))
+    mem_pieces, mem = insn_dirty(case.get("dirty"))
+    mem = list(mem)
+
+    prog = b""
+    # MSTORE / MSTORE8 before the copy
+    for kind, loc, val in case.get("pre", []):
+        if kind == "MSTORE":
+            prog += b"\x7f" + int(val).to_bytes(32, "big") + _p2(loc) + b"\x52"
+            mem = PyFlat.write(mem, loc, list(int(val).to_bytes(32, "big")))
+        else:
+            prog += bytes([0x60, val & 0xFF]) + _p2(loc) + b"\x53"
+            mem = PyFlat.write(mem, loc, [val & 0xFF])
+    route = case.get("route", "inject")
+    if op == "RETURNDATACOPY" and route == "precompile":
+        # return data := memory[0:rlen] echoed by the identity precompile (STATICCALL to 0x04, retSize 0)
+        rlen = case.get("rlen", 32)
+        prog += _p2(0) + _p2(0) + _p2(rlen) + _p2(0) + bytes([0x60, 4]) + b"\x5a" + b"\xfa" + b"\x50"
+        src_toks = PyFlat.read(mem, 0, rlen)
+    if op == "EXTCODECOPY":
+        addr = EXT_ADDR if case.get("account", "existing") == "existing" else EMPTY_ADDR
+        prog += _p2(size) + _p2(off) + _p2(dst) + b"\x73" + addr.to_bytes(20, "big") + bytes([INSN_OPS[op]])
+        if case.get("account", "existing") != "existing":
+            src_toks = []
+    else:
+        prog += _p2(size) + _p2(off) + _p2(dst) + bytes([INSN_OPS[op]])
+    mload_at = case.get("mload", dst)
+    prog += _p2(mload_at) + b"\x51" + b"\x00"
+
+    code_pieces = [prog]
+    if op == "CODECOPY":
+        # the source is the running code itself: program (concrete prefix) followed by the source pieces;
+        # `off` is relative to the end of the program minus 3, so that windows straddle the prefix end
+        code_pieces = [prog] + src_pieces
+        base = len(prog) - 3
+        real_off = base + off
+        src_toks = list(prog) + src_toks
+        # patch the pushed offset (PUSH2 off is the second push of the copy sequence)
+        marker = _p2(size) + _p2(off) + _p2(dst) + bytes([INSN_OPS[op]])
+        i = prog.rindex(marker)
+        prog2 = prog[:i] + _p2(size) + _p2(real_off) + _p2(dst) + bytes([INSN_OPS[op]]) + prog[i + len(marker):]
+        assert len(prog2) == len(prog)
+        code_pieces[0] = prog2
+        src_toks = list(prog2) + src_toks[len(prog):]
+        off = real_off
+    ex = sevmdrv.mk_ex(
+        sevm, args, Contract(ByteVec(code_pieces)),
+        calldata=ByteVec(list(src_pieces)) if op == "CALLDATACOPY" else ByteVec(),
+        extra_code={con_addr(EXT_ADDR): Contract(ByteVec(list(src_pieces)))} if op == "EXTCODECOPY" else None,
+    )
+    for piece in mem_pieces:
+        ex.st.memory.append(piece)
+    if op == "RETURNDATACOPY" and route == "inject":
+        sub = CallContext(
+            Message(target=con_addr(EXT_ADDR), caller=sevmdrv.THIS, origin=sevmdrv.ORIGIN, value=0, data=ByteVec(), call_scheme=EVM.STATICCALL),
+            output=CallOutput(data=ByteVec(list(src_pieces))),
+        )
+        ex.context.trace.append(sub)
+    if op == "MCOPY":
+        src_toks = mem  # zero-extended reads of the memory before the copy
+
+    # flat expectation
+    fail = op == "RETURNDATACOPY" and off + size > len(src_toks)
+    exp_mem = mem if (size == 0 or fail) else PyFlat.write(mem, dst, PyFlat.read(src_toks, off, off + size))
+    exp_top = PyFlat.read(exp_mem, mload_at, mload_at + 32)
+
+    signal.setitimer(signal.ITIMER_REAL, 10.0)
+    try:
+        exs = list(sevm.run(ex))
+    except OpTimeout:
+        return {"crash": "Timeout"}, {"fail": fail, "mem": exp_mem, "top": exp_top}
+    except Exception as e:  # noqa: BLE001
+        return {"crash": err_name(e) + ": " + str(e)[:80]}, {"fail": fail, "mem": exp_mem, "top": exp_top}
+    finally:
+        signal.setitimer(signal.ITIMER_REAL, 0)
+    got = {"paths": len(exs)}
+    if len(exs) == 1:
+        e0 = exs[0]
+        err = e0.context.output.error
+        got["error"] = type(err).__name__ if err is not None else None
+        if err is None:
+            m = e0.st.memory
+            got["mem_len"] = len(m)
+            try:
+                got["mem"] = Impl.chunk_tokens(m)
+                got["mem_public"] = value_tokens(m) if len(m) else []
+                top = e0.st.stack[-1] if e0.st.stack else None
+                tv = top.value if isinstance(top, BV) else top
+                got["top"] = list(int(tv).to_bytes(32, "big")) if isinstance(tv, int) else term_tokens(tv)
+            except (Uncanonical, RecursionError) as e:
+                got["crash"] = "uncanonical " + str(e)
+    return got, {"fail": fail, "mem": exp_mem, "top": exp_top}
+
+
+def insn_class(case, src_len):
+    off, size = case["off"], case["size"]
+    if size == 0:
+        w = "size0"
+    elif off == 0:
+        w = "off0"
+    elif size <= off:
+        w = "size-le-off"
+    else:
+        w = "size-gt-off"
+    if size and off >= src_len:
+        w += "-past-end"
+    elif size and off + size > src_len:
+        w += "-straddles-end"
+    kind = case["op"]
+    if kind == "EXTCODECOPY":
+        kind += "-" + case.get("account", "existing")
+        if case.get("account", "existing") != "existing" and size:
+            w = "nonzero-offset" if off else "off0"  # an empty account: every window is past the end
+    if kind == "RETURNDATACOPY" and case.get("route") == "precompile":
+        kind += "-precompile"
+    return kind, w
+
+
+def insn_check(ctx, case, tag):
+    got, exp = insn_run(case)
+    src_len = {"EXTCODECOPY": 0 if case.get("account", "existing") != "existing" else len(insn_source(case.get("src", "concrete"))[1])}.get(
+        case["op"], len(insn_source(case.get("src", "concrete"))[1]))
+    if case["op"] == "RETURNDATACOPY" and case.get("route") == "precompile":
+        src_len = case.get("rlen", 32)
+    kind, where = insn_class(case, src_len)
+    ctx.case(("insn", kind, where, case.get("src"), bool(case.get("dirty")), case["dst"] % 32 == 0, len(case.get("pre", []))))
+    ctx.count(f"insn:{kind}")
+    ctx.count(f"insn-window:{where}")
+    problem = None
+    if "crash" in got:
+        problem = ("crash", f"the run raised {got['crash']}")
+    elif got["paths"] != 1:
+        problem = ("paths", f"{got['paths']} paths for a straight-line program")
+    elif exp["fail"]:
+        if got["error"] is None:
+            problem = ("accepted-out-of-bounds", "an out-of-bounds RETURNDATACOPY did not fail")
+    elif got["error"] is not None:
+        problem = ("error", f"unexpected {got['error']}")
+    else:
+        if got["mem_len"] != len(exp["mem"]) or got["mem"] != exp["mem"]:
+            problem = ("memory", f"memory after the copy is {tok_str(got['mem'])} (length {got['mem_len']}), the flat array gives "
+                                 f"{tok_str(exp['mem'])} (length {len(exp['mem'])})")
+        elif got["mem_public"] != exp["mem"]:
+            problem = ("memory-unwrap", f"memory.unwrap() gives {tok_str(got['mem_public'])}, the flat array {tok_str(exp['mem'])}")
+        elif got["top"] != exp["top"]:
+            problem = ("mload", f"MLOAD({case.get('mload', case['dst'])}) after the copy gives {tok_str(got['top'])}, the flat array {tok_str(exp['top'])}")
+    if problem:
+        key = f"insn:{kind}:{where}:{problem[0]}"
+        ctx.violation(key, f"{case['op']}(dst={case['dst']}, offset={case['off']}, size={case['size']}) "
+                           f"[{tag}; source {case.get('src', 'concrete')}, {'dirty' if case.get('dirty') else 'empty'} memory, "
+                           f"{case.get('account', '')} {case.get('route', '')}]: {problem[1]}", {"kind": "insn", "case": case})
+        return False
+    return True
+
+
+def insn_corpus(ctx):
+    corpus = VERIF / "corpus" / ID
+    n = 0
+    if corpus.is_dir():
+        for p in sorted(corpus.glob("*.json")):
+            for case in json.loads(p.read_text()).get("insn_cases", []):
+                insn_check(ctx, case, f"corpus:{p.name}")
+                n += 1
+    ctx.count("insn-corpus-cases", n)
+
+
+def insn_section(ctx):
+    rng = ctx.rng
+    kinds = [
+        {"op": "CALLDATACOPY"}, {"op": "CODECOPY"}, {"op": "EXTCODECOPY", "account": "existing"},
+        {"op": "EXTCODECOPY", "account": "empty"}, {"op": "RETURNDATACOPY", "route": "inject"}, {"op": "MCOPY"},
+    ]
+    budget = ctx.scale(9000, 60000)
+    cases = []
+    for k in kinds:
+        for src in ("concrete", "mixed"):
+            L = len(insn_source(src)[1])
+            if k["op"] == "MCOPY":
+                L = 77
+            offs = sorted({0, 1, 4, 5, 12, 13, 31, 33, L - 1, L, L + 3})
+            for dirty in (False, True):
+                for dst in (0, 3, 32, 70):
+                    for off in offs:
+                        for size in (0, 1, 4, 5, 8, 32, 33, 60):
+                            cases.append({**k, "src": src, "dirty": dirty, "dst": dst, "off": off, "size": size})
+    rng.shuffle(cases)
+    full = len(cases) <= budget
+    for c in cases[:budget]:
+        # MSTORE / MSTORE8 around: sometimes write known values first, and read a word near the destination afterwards
+        r = rng.random()
+        if r < 0.3:
+            c["pre"] = [("MSTORE", rng.choice([0, 5, 31, 40, 64, 90]), rng.getrandbits(256))]
+        elif r < 0.5:
+            c["pre"] = [("MSTORE8", rng.choice([0, 7, 33, 69, 100]), rng.randrange(256)), ("MSTORE", rng.choice([2, 32, 66]), rng.getrandbits(256))]
+        c["mload"] = max(0, c["dst"] + rng.choice([0, 0, -3, 5, c["size"] - 4, c["size"], 31]))
+        insn_check(ctx, c, "grid")
+    # return data produced by a real sub-call (identity precompile), concrete and symbolic
+    for symbolic in (False, True):
+        for off in (0, 1, 4, 12, 16, 31, 32, 33):
+            for size in (0, 1, 4, 8, 16, 20, 32):
+                for dst in (0x40, 0x45):
+                    c = {"op": "RETURNDATACOPY", "route": "precompile", "rlen": 32, "dst": dst, "off": off, "size": size,
+                         "dirty": True, "src": "concrete",
+                         "pre": [("MSTORE8", 3, 0x5A)] if symbolic else [("MSTORE", 0, int.from_bytes(bytes(range(1, 33)), "big"))]}
+                    insn_check(ctx, c, "precompile")
+    ctx.extra["insn_grid_cases"] = min(len(cases), budget)
+    ctx.extra["insn_grid_complete"] = full
+
 # ----------------------------------------------------------------------------------------------------------
 
 
@@ -1539,6 +1795,7 @@ def correspond(ctx):
                                    force=h.get("force_routes", ()))
                 ctx.count("corpus-history")
     runner.finish()
+    insn_corpus(ctx)
 
     # 1. exhaustive small scope
     A = alphabet()
@@ -1608,6 +1865,9 @@ def correspond(ctx):
     # 3. directed checks
     directed(ctx, max_mem, alias_live)
 
+    # 4. instruction level: the copy instructions on the real SEVM
+    insn_section(ctx)
+
     ctx.sample({"witness": [op_line(o) for o in WITNESS]})
     ctx.sample({"exhaustive_example": [op_line(o) for o in PREAMBLE + A[:2]]})
     ctx.sample({"random_example": [op_line(o) for o in gen.history(8)]})
@@ -1625,6 +1885,9 @@ def replay(ctx, data) -> bool:
                 print(f"  diverges at step {r[0]}: {r[1]}")
                 return True
         return False
+    if rep.get("kind") == "insn":
+        sub = type(ctx)(ctx.pid, ctx.tier, ctx.seed)
+        return not insn_check(sub, rep["case"], "replay")
     # directed cases: re-run the directed block and see whether the same key shows up again
     sub = type(ctx)(ctx.pid, ctx.tier, ctx.seed)
     directed(sub, None)
